@@ -16,7 +16,7 @@ func engineSpec(id string, profiles []lab.Profile, opts lab.RunOpts, check func(
 		Gen: func(t *rapid.T) lab.Scenario {
 			pf := profiles[0]
 			if len(profiles) > 1 {
-				pf = profiles[rapid.IntRange(0, len(profiles)-1).Draw(t, "profile")]
+				pf = profiles[lab.Rng(t, 0, len(profiles)-1, "profile")]
 			}
 			return pf.Gen(t)
 		},
@@ -313,10 +313,10 @@ func TestC08(t *testing.T) {
 		ID: "C08",
 		Gen: func(t *rapid.T) C08Case {
 			c := C08Case{Sc: base.Gen(t)}
-			if rapid.IntRange(0, 7).Draw(t, "writeFault") == 7 {
-				n := rapid.IntRange(1, 2).Draw(t, "nFaults")
+			if lab.Pct(t, 12, "writeFault") {
+				n := lab.Rng(t, 1, 2, "nFaults")
 				for i := 0; i < n; i++ {
-					c.Fault = append(c.Fault, rapid.IntRange(0, 1000).Draw(t, "faultAt"))
+					c.Fault = append(c.Fault, lab.Rng(t, 0, 1000, "faultAt"))
 				}
 			}
 			return c
